@@ -515,3 +515,46 @@ impl Group for Trace {
         format!("{}{}", if o.contains("present:") { "present " } else { "" }, if o.contains("prepare999") { "single" } else if o.contains("preparenone") { "none" } else { "fn" })
     }
 }
+
+/// What a Present extension that is mounted by file extension or by predicate is handed: `PresentArguments::empty()`.
+/// The same extension function can be mounted by name as well (kvarn-extensions mounts `hide` both ways), so walking the
+/// arguments must be harmless here too.
+pub struct EmptyArgs;
+impl Group for EmptyArgs {
+    fn name(&self) -> &'static str {
+        "c16.emptyargs"
+    }
+    fn rule(&self) -> &'static str {
+        "PresentArguments::empty() — the arguments of a Present extension bound to a file extension or a predicate — walked forwards, backwards and from both ends, and asked for its name, under catch_unwind; oracle: no panic, no arguments, an empty name; non-trivial = always"
+    }
+    fn generate(&self, _ctx: &Ctx, _rng: &mut Rng) -> Vec<String> {
+        vec!["c16.emptyargs iter".into(), "c16.emptyargs rev".into(), "c16.emptyargs both".into(), "c16.emptyargs name".into(), "c16.emptyargs exts".into()]
+    }
+    fn compare_with_model(&self, _line: &str) -> bool {
+        false
+    }
+    fn run_impl(&self, _ctx: &Ctx, line: &str) -> String {
+        let args = kvarn_utils::extensions::PresentArguments::empty();
+        match line.split(' ').nth(1).unwrap_or("") {
+            "iter" => format!("args={}", args.iter().count()),
+            "rev" => format!("args={}", args.iter().rev().count()),
+            "both" => {
+                let mut it = args.iter();
+                let a = it.next_back().is_some() as usize;
+                let b = it.next().is_some() as usize;
+                format!("args={}", a + b)
+            }
+            "name" => format!("name={}", hex(args.name().as_bytes())),
+            _ => format!("args={}", kvarn_utils::extensions::PresentExtensions::empty().iter_clone().count()),
+        }
+    }
+    fn oracle(&self, _ctx: &Ctx, line: &str, out: &str) -> Option<(String, String)> {
+        if out != "args=0" && out != "name=-" {
+            return Some((format!("emptyargs:{line}"), format!("the empty argument list of a file- or predicate-bound Present extension: {out}")));
+        }
+        None
+    }
+    fn nontrivial(&self, _l: &str, _o: &str) -> bool {
+        true
+    }
+}
